@@ -144,7 +144,7 @@ def probe_embedded(cfg, conc, w, log):
     p, s = conc['pos'], conc['slabs']
     dom = shin[:p] + [s] + shin[p:]
     ran = shout[:p] + [s] + shout[p:]
-    offs2 = offs[:p] + [0] + offs[p:]
+    offs2 = offs[:p] + [conc.get('extra_off', 0)] + offs[p:]      # the entry for the untouched axis is ignored
     N = size(shin)
     unit = R.c_mul_i(cj(1)) if w == 'i' else cj(1)
     zero = cj(0)
@@ -220,7 +220,7 @@ def replay_case(case, k, log, thorough=False):
         m, n, o = shin[0], shout[0], offs[0]
         for gi, g in enumerate(obs['geo']):
             flags = [g['dL'], g['dR'], g['rL'], g['rR']]
-            style = 'alt' if (k + gi) % 2 else 'plain'
+            style = ['plain', 'alt', 'arrays'][(k + gi) % 3]
             routes = ['ran_shp'] + (['default'] if (o == 0 and m != n and gi % 3 == 0) else []) + (['range'] if gi % 4 == 1 else [])
             for route in routes:
                 cd = {'api': 'operator', 'variant': 'call', 'dom': shin, 'ran': shout, 'offs': offs if route != 'default' else [None],
@@ -288,7 +288,7 @@ def replay_case(case, k, log, thorough=False):
             picks += [(DTYPES[(k + 1 + j) % 6], ['none', 'given'][(k + j) % 2], ['C', 'F'][(k + j + 1) % 2]) for j in range(2)]
         for dtype, out, order in picks:
             w = 'i' if dtype.startswith('complex') else 1
-            style = 'alt' if (k // 2) % 2 else 'plain'
+            style = ['plain', 'alt', 'arrays'][(k // 2) % 3]
             base = {'api': 'resize_array', 'variant': 'array', 'dom': shin, 'ran': shout, 'offs': offs, 'mode': mode,
                     'dir': direction, 'c': cfg_c(cfg, w), 'dtype': dtype, 'out': out, 'order': order, 'D': 1, 'style': style}
             res = probe(base, N, w, log)
@@ -298,7 +298,7 @@ def replay_case(case, k, log, thorough=False):
         dtype = DTYPES[(k + 3) % 6]
         w = 'i' if dtype.startswith('complex') else 1
         conc = {'kind': 'embedded', 'pos': k % (d + 1), 'slabs': 2 + k % 2, 'dtype': dtype, 'out': ['given', 'none'][k % 2],
-                'order': ['C', 'F'][(k // 2) % 2], 'shift': k}
+                'order': ['C', 'F'][(k // 2) % 2], 'shift': k, 'extra_off': [0, 2, 1][k % 3]}
         res = probe_embedded(cfg, conc, w, log)
         rec('resize_array', 'array', dtype, conc, ['raised'] if res['err'] else compare_resp(res, mat, aff, N), res)
         # C. ResizingOperator: call (forward configuration) or adjoint (adjoint configuration)
@@ -308,7 +308,8 @@ def replay_case(case, k, log, thorough=False):
             construct = ['ran_shp', 'range'][(k + j) % 2]
             base = {'api': 'operator', 'variant': 'call' if fwd else 'adjoint', 'dom': opdom, 'ran': opran, 'offs': offs,
                     'mode': mode, 'c': cfg_c(cfg, w), 'dtype': dtype, 'out': ['none', 'given'][(k + j) % 2], 'D': 1,
-                    'lo': lo, 'hs': hs, 'construct': construct, 'style': 'alt' if (k // 3) % 2 else 'plain'}
+                    'lo': lo, 'hs': hs, 'construct': construct, 'style': ['plain', 'alt', 'arrays'][(k // 3) % 3],
+                    'history': bool((k // 2) % 2)}
             res = probe(base, N, w, log)
             rec('ResizingOperator', base['variant'], dtype, {'dtype': dtype, 'out': base['out'], 'construct': construct,
                                                              'lo': lo, 'hs': hs, 'kind': 'operator', 'style': base['style']},
@@ -323,7 +324,7 @@ def replay_case(case, k, log, thorough=False):
             y, err, nt, info = R.execute(cd)
             arr = R.to_array(x, tuple(shin), dtype)
             kw = {'constant_values': cfg['c']} if mode == 'constant' else {}
-            ref = np.pad(arr, [(o, n - m - o) for m, n, o in zip(shin, shout, offs)], mode=NPMODE[mode], **kw)
+            ref = np.pad(arr, [((o, n - m - o) if n != m else (0, 0)) for m, n, o in zip(shin, shout, offs)], mode=NPMODE[mode], **kw)
             refy = R.snap_block(ref, 1, dtype)
             rec('resize_array', 'array', dtype, {'kind': 'numpy-pad', 'dtype': dtype, 'shift': k},
                 ['raised'] if err else ([] if y == refy else ['numpy-pad']),
@@ -389,41 +390,59 @@ def rand_c(rnd, cplx, Dx, lim=4):
 
 
 def geometry_cases(quick):
-    """Operator constructions: all 1-d (m, n) with every explicit offset and the default one; 2-d mixtures."""
+    """Operator constructions: all 1-d (m, n) with every explicit offset and the default one (on unchanged axes also the
+    ignored non-zero entries); 2-d and 3-d mixtures of grow / shrink / same with per-axis offsets that are None, valid,
+    or non-zero on an UNCHANGED axis; the scalar spelling offset=k on n-d spaces that change only some axes."""
     out = []
     top = 5 if quick else 7
     k = 0
     for m in range(1, top + 1):
         for n in range(1, top + 1):
-            for o in [None] + list(range(0, abs(n - m) + 1)):
-                if m == n and o is not None:
-                    continue
+            for o in [None] + (list(range(0, abs(n - m) + 1)) if m != n else [0, 1, 3]):
                 k += 1
-                out.append(([m], [n], [o], k))
-    shapes = [(a, b) for a in (1, 2, 3, 4) for b in (1, 2, 3, 4)]
+                out.append(([m], [n], [o], k, None))
     rnd = random.Random(99)
-    pairs = [(s, t) for s in shapes for t in shapes if s != t]
+    shapes2 = [(a, b) for a in (1, 2, 3, 4) for b in (1, 2, 3, 4)]
+    shapes3 = [(a, b, c) for a in (2, 3) for b in (1, 2, 3) for c in (2, 4)]
+    pairs = [(s, t) for s in shapes2 for t in shapes2 if s != t]
     rnd.shuffle(pairs)
-    for s, t in pairs[:(60 if quick else 240)]:
+    pairs3 = [(s, t) for s in shapes3 for t in shapes3 if s != t]
+    rnd.shuffle(pairs3)
+    for s, t in pairs[:(70 if quick else 240)] + pairs3[:(30 if quick else 120)]:
         offs = []
         for m, n in zip(s, t):
-            offs.append(None if (m == n or rnd.random() < 0.4) else rnd.randint(0, abs(n - m)))
+            if m == n:
+                offs.append(rnd.choice([None, 0, 1, 2, 3]))
+            else:
+                offs.append(None if rnd.random() < 0.3 else rnd.randint(0, abs(n - m)))
         k += 1
-        out.append((list(s), list(t), offs, k))
+        out.append((list(s), list(t), offs, k, None))
+    # the scalar spelling: one int for all axes although only some axes change (k <= every actual size change)
+    scal = [(s, t) for s, t in pairs + pairs3 if any(m == n for m, n in zip(s, t))]
+    for s, t in scal[:(40 if quick else 160)]:
+        lim = min(abs(n - m) for m, n in zip(s, t) if m != n)
+        kk = rnd.randint(1, lim) if lim >= 1 else 0
+        k += 1
+        out.append((list(s), list(t), [kk] * len(s), k, 'alt'))
     return out
 
 
-def run_geometry(dom, ran, offs, k):
-    """Construct the operator, observe geometry and one call.  Returns list of (event-dict | (cd, y, err, offs)).
+def run_geometry(dom, ran, offs, k, style=None):
+    """Construct the operator, observe geometry and one call; then use the operator (inverse, a call whose result is
+    overwritten) and observe geometry and the call AGAIN (queries must not depend on earlier calls).
+    Returns list of (event-dict | (cd, y, err, offs)).
     Every second case requests nodes on the boundary: the 16 combinations of (domain L, R, range L, R) rotate per axis."""
     d = len(dom)
     lo = [LOS[(k + a) % len(LOS)] for a in range(d)]
     hs = [HS[(k + 3 * a) % len(HS)] for a in range(d)]
     mode = MODES[k % 5]
     all_none = all(o is None for o in offs)
+    no_none = not any(o is None for o in offs)
+    if style is None:
+        style = 'alt' if k % 3 == 0 else ('arrays' if (k % 3 == 1 and no_none) else 'plain')
     cd = {'api': 'operator', 'variant': 'call', 'dom': dom, 'ran': ran, 'offs': offs, 'mode': mode, 'c': cj(0),
           'x': generic(size(dom), k), 'dtype': 'float64', 'out': 'none', 'D': 1, 'lo': [qj(v) for v in lo], 'hs': [qj(v) for v in hs],
-          'construct': 'default' if all_none else 'ran_shp', 'Dg': 16, 'style': 'alt' if k % 3 == 0 else 'plain'}
+          'construct': 'default' if all_none else 'ran_shp', 'Dg': 16, 'style': style}
     if k % 2:
         dbdry, rbdry = [], []
         for a, (m, n) in enumerate(zip(dom, ran)):
@@ -433,7 +452,7 @@ def run_geometry(dom, ran, offs, k):
             dbdry.append(df)
             rbdry.append(rf)
         cd.update(dbdry=dbdry, rbdry=rbdry)
-        if k % 8 == 3 and not any(o is None for o in offs):
+        if k % 8 == 3 and no_none:
             cd['construct'] = 'range'
     y, err, nt, info = R.execute(cd)
     evs = []
@@ -442,6 +461,12 @@ def run_geometry(dom, ran, offs, k):
         given = [-1 if o is None else o for o in offs]
         evs.append(range_event(cd, g, given))
         evs.append((cd, y, err, g['offs']))
+        # history: inverse, then a call whose first result is overwritten; geometry and values once more
+        R.execute(dict(cd, variant='inverse', x=generic(size(ran), k + 1)))
+        y2, err2, nt2, info2 = R.execute(dict(cd, history=True))
+        if 'geometry' in info2:
+            evs.append(range_event(cd, info2['geometry'], given))
+            evs.append((dict(cd, history=True), y2, err2, info2['geometry']['offs']))
     else:
         evs.append({'kind': 'construct-failed', 'err': err, 'note': nt})
     return cd, evs
@@ -486,7 +511,7 @@ def driver_call(rnd, fam=None):
     hi = {1: 8, 2: 5, 3: 3}[ndim]
     dom = fam.get('dom') or [rnd.randint(1, hi) for _ in range(ndim)]
     ran = fam.get('ran') or [rnd.choice([m, rnd.randint(1, hi), rnd.randint(1, hi)]) for m in dom]
-    offs = [rnd.randint(0, abs(n - m)) for m, n in zip(dom, ran)]
+    offs = [rnd.randint(0, abs(n - m)) if m != n else rnd.choice([0, 0, 1, 2, 5]) for m, n in zip(dom, ran)]
     mode = fam.get('mode') or rnd.choice(MODES)
     api = fam.get('api') or rnd.choice(['resize_array', 'resize_array', 'operator'])
     if api == 'resize_array':
@@ -506,7 +531,8 @@ def driver_call(rnd, fam=None):
     x = [rand_c(rnd, cplx, Dx) for _ in range(size(shape_x))]
     cd = {'api': api, 'variant': variant, 'dom': dom, 'ran': ran, 'offs': offs, 'mode': mode, 'dir': direction, 'c': c, 'x': x,
           'dtype': dtype, 'out': rnd.choice(['none', 'given']), 'order': rnd.choice(['C', 'F']), 'D': Dx}
-    cd['style'] = rnd.choice(['plain', 'alt'])
+    cd['style'] = rnd.choice(['plain', 'alt', 'arrays'])
+    cd['history'] = api == 'operator' and rnd.random() < 0.3
     if api == 'operator':
         cd.update(lo=[qj(rnd.choice(LOS)) for _ in dom], hs=[qj(rnd.choice(HS)) for _ in dom],
                   construct=rnd.choice(['ran_shp', 'range']))
@@ -559,6 +585,10 @@ def run(ctx):
         'nodes on the boundary (discr_kwargs nodes_on_bdry, and domains that have them): only the GEOMETRY is judged (range limits, '
         'unchanged cell side, range nodes = continued domain nodes, .inverse constructible, extend-then-crop); the weighted adjoint '
         'identity on such partitions is the subject of C05; axes with a single node carry no flags',
+        'an offset entry on an axis whose size does not change is ignored (effective offset 0): range limits, cell side and grid '
+        'of the domain are kept there; this is what makes the documented scalar spelling offset=k meaningful when only some axes change',
+        'caller-owned ndarrays given as ran_shp / offset / pad_const are overwritten after the construction, results of earlier calls '
+        'are overwritten, and geometry / values are observed again after other calls: all must stay as specified',
         'option spellings exercised: nested-list input, list / tuple shapes, one int offset for all axes, upper-case mode / '
         'direction strings, 0-d array pad constants, ran_shp / explicit range / default offset, discr_kwargs dtype',
         'all data on integer / half-integer lattices; results are integer combinations of them, compared exactly']
@@ -636,17 +666,17 @@ def run(ctx):
     # ---- 3. drivers ----
     # 3a operator geometry (range domain, cell sides, offsets) + one call each
     ngeo = 0
-    for dom, ran, offs, k in geometry_cases(quick):
-        cd, evs = run_geometry(dom, ran, offs, k)
+    for dom, ran, offs, k, gstyle in geometry_cases(quick):
+        cd, evs = run_geometry(dom, ran, offs, k, gstyle)
         kind = 'default' if all(o is None for o in offs) else ('from-range' if cd['construct'] == 'range' else 'explicit')
         for e in evs:
             if isinstance(e, dict) and e.get('kind') == 'construct-failed':
                 ctx.violation(signature('ResizingOperator', 'construct', cd['mode'], 'forward', dom, ran, 'float64', kind, 'construct-raised',
                                         bdry_class(cd.get('dbdry'), cd.get('rbdry'))),
-                              {'stage': 'geometry', 'dom': dom, 'ran': ran, 'offs': offs, 'k': k, 'observed': e})
+                              {'stage': 'geometry', 'dom': dom, 'ran': ran, 'offs': offs, 'k': k, 'style': gstyle, 'observed': e})
                 continue
             if isinstance(e, dict):
-                e['_replay'] = {'dom': dom, 'ran': ran, 'offs': offs, 'k': k}
+                e['_replay'] = {'dom': dom, 'ran': ran, 'offs': offs, 'k': k, 'style': gstyle}
             add_events([e], 'ResizingOperator', 'construct' if isinstance(e, dict) else 'call', 'float64', kind)
         ctx.count(['geometry', dom, ran, offs], dom != ran)
         ngeo += 1
@@ -805,7 +835,7 @@ def replay(body):
         return 1 if same else 0
     if st == 'trace-range' or st == 'geometry':
         rp = d.get('replay') or d
-        cd, evs = run_geometry(rp['dom'], rp['ran'], rp['offs'], rp['k'])
+        cd, evs = run_geometry(rp['dom'], rp['ran'], rp['offs'], rp['k'], rp.get('style'))
         now = [e for e in evs if isinstance(e, dict)]
         print('operator : ResizingOperator(uniform_discr(lo=%s, cell sides %s, shape %s), ran_shp=%s, offset=%s)' % (
             dumps(cd['lo']), dumps(cd['hs']), rp['dom'], rp['ran'], rp['offs']))
